@@ -15,7 +15,19 @@ class Spec(object):
     def check_state(self, st, out):
         pass
 
-    def pre(self, st):
+    mutating_checks = False  # True: check_state may change the state -> always rebuild
+
+    def build(self, hist):
+        return machine.build(self.alphabet, hist, self.values)
+
+    def apply(self, st, op):
+        machine.apply(st, op, self.values)
+
+    def canon(self, st):
+        return machine.canon(st)
+
+    def pre(self, st, op):
+        """observation of the pre-state needed by check_transition (taken before op runs)"""
         return None
 
     def check_transition(self, pre, op, st, out):
